@@ -23,6 +23,7 @@ def run(prop, tier, root=None, evidence_dir=None, quiet=False):
     chk.assumptions = list(getattr(mod, "ASSUMPTIONS", []))
     try:
         mod.run(chk, repo)
+        _generic(chk, repo, prop)
     except AnalysisError as e:
         # a later rule could not be carried out.  If the rules that did run
         # already established violations (failed obligations that are not
@@ -36,6 +37,30 @@ def run(prop, tier, root=None, evidence_dir=None, quiet=False):
                  f"evaluated; the violations below were established "
                  f"before)")
     return chk.finish()
+
+
+def _generic(chk, repo, prop):
+    """rules that apply to every property alike, over the modules its
+    anchors name (properties.jsonl)"""
+    from .rules.common import module_state_rule
+    verif = os.path.dirname(os.path.dirname(os.path.abspath(__file__)))
+    files = []
+    try:
+        with open(os.path.join(verif, "properties.jsonl")) as fin:
+            for line in fin:
+                d = json.loads(line)
+                if d.get("id") == prop:
+                    files = d.get("anchors", {}).get("files", [])
+    except (OSError, ValueError):
+        return
+    mods = [f[:-3].replace("/", ".") for f in files if f.endswith(".py")]
+    if not mods:
+        return
+    rule = f"R{prop[1:]}.0"
+    chk.doc(rule, "no hidden process-wide state in the anchored modules")
+    module_state_rule(chk, repo, rule, mods,
+                      "what one caller (request, terminal, program, "
+                      "layout) left there is handed to the next")
 
 
 def main(argv=None):
